@@ -32,6 +32,14 @@ where
     }
 }
 
+/// The symlink stored in the cache must keep pointing at the target wherever it is
+/// resolved from: a relative target is anchored at the current directory when the
+/// linker is opened (a relative link text would be resolved against the content
+/// directory and dangle).
+fn absolute_target(target: &Path) -> std::io::Result<PathBuf> {
+    std::path::absolute(target)
+}
+
 fn create_symlink(sri: Integrity, cache: &PathBuf, target: &PathBuf) -> Result<Integrity> {
     let cpath = path::content_path(cache.as_ref(), &sri);
     DirBuilder::new()
@@ -80,7 +88,8 @@ impl ToLinker {
         let file = File::open(target)
             .with_context(|| format!("Failed to open reader to {}", target.display()))?;
         Ok(Self {
-            target: target.to_path_buf(),
+            target: absolute_target(target)
+                .with_context(|| format!("Failed to resolve {}", target.display()))?,
             cache: cache.to_path_buf(),
             fd: file,
             builder: IntegrityOpts::new().algorithm(algo),
@@ -155,7 +164,8 @@ impl AsyncToLinker {
             .await
             .with_context(|| format!("Failed to open reader to {}", target.display()))?;
         Ok(Self {
-            target: target.to_path_buf(),
+            target: absolute_target(target)
+                .with_context(|| format!("Failed to resolve {}", target.display()))?,
             cache: cache.to_path_buf(),
             fd: file,
             builder: IntegrityOpts::new().algorithm(algo),
